@@ -57,7 +57,10 @@ class FakeDatetime:
 
     @classmethod
     def now(cls, tz=None):
-        return cls.now_value
+        # as datetime.now: naive local time without a zone, aware time in the zone given
+        if tz is None:
+            return cls.now_value.astimezone().replace(tzinfo=None)
+        return cls.now_value.astimezone(tz)
 
 
 def run(ctx):
@@ -73,6 +76,10 @@ def run(ctx):
     dist = {}
     real_dt = cv2.datetime
     cv2.datetime = FakeDatetime
+    # the verifying host is not in UTC
+    import time as _time
+    os.environ["TZ"] = "Etc/GMT+5"
+    _time.tzset()
     try:
         from cryptography.hazmat.primitives.asymmetric import ec
         for i in range(n):
